@@ -35,6 +35,12 @@ Proof.
   now apply app_eq_nil in E as [_ E].
 Qed.
 
+Lemma last_kt_app : forall pre l, l <> [] -> last_kt (pre ++ l) = last_kt l.
+Proof.
+  intros pre l H. destruct (snoc_cases l) as [->|(l' & e & ->)]; [congruence|].
+  now rewrite app_assoc, !last_kt_snoc.
+Qed.
+
 Lemma sorted_last_max : forall l a, sorted l -> In a l ->
   a = last l dummy_entry \/ kref_lt a (last l dummy_entry).
 Proof.
@@ -284,13 +290,27 @@ Section Build.
     repeat split; auto.
   Qed.
 
-  (* the u32 assert in append is unreachable when records are not absurdly large *)
-  Lemma bb_add_no_panic : (forall be, enc_size be <= U32_MAX - TABLE_FULL_SIZE) ->
-    forall b e, bb_add enc_size b e <> Err EPanic.
+  (* the u32 assert in append is unreachable when the records the builder makes from entries
+     that passed its checks are not absurdly large (the real ones are below 50 KiB) *)
+  Definition size_bounded : Prop :=
+    forall be, len (be_frag be) <= MAX_KEY_LEN -> (forall v, be_val be = Some v -> len v <= MAX_VALUE_LEN) ->
+               be_shared be <= MAX_KEY_LEN -> be_ts be <= U64_MAX ->
+               enc_size be <= U32_MAX - TABLE_FULL_SIZE.
+
+  Lemma common_prefix_le_r : forall a b, (common_prefix a b <= length b)%nat.
   Proof.
-    intros Hb b e H. unfold bb_add in H.
-    destruct (check_key_len (e_key e)) as [[]|x] eqn:C1; cbn [bind] in H;
-      [|unfold check_key_len in C1; destruct (_ <? _); congruence].
+    induction a as [|x a IH]; intros [|y b]; cbn [common_prefix length]; try lia.
+    destruct (x =? y); [specialize (IH b)|]; lia.
+  Qed.
+
+  Lemma bb_add_no_panic : size_bounded ->
+    forall b e, e_ts e <= U64_MAX -> bb_add enc_size b e <> Err EPanic.
+  Proof.
+    intros Hb b e Hts H. unfold bb_add in H.
+    unfold check_key_len in H. destruct (N.ltb_spec MAX_KEY_LEN (len (e_key e))) as [|L1]; cbn [bind] in H; [discriminate|].
+    assert (Hv : forall v, e_val e = Some v -> len v <= MAX_VALUE_LEN).
+    { intros v EV. rewrite EV in H. unfold check_value_len in H.
+      destruct (N.ltb_spec MAX_VALUE_LEN (len v)); [cbn [bind] in H; discriminate|assumption]. }
     destruct (match e_val e with Some v => check_value_len v | None => Ok tt end) as [[]|x] eqn:C2; cbn [bind] in H.
     2:{ destruct (e_val e); [|discriminate]. unfold check_value_len in C2. destruct (_ <? _); congruence. }
     unfold check_table_size in H.
@@ -300,6 +320,25 @@ Section Build.
     unfold bb_approx_size in L3.
     unfold compute_key_frag in H. destruct (should_restart b); unfold bb_append in H; cbn [bb_buf] in H;
       match type of H with context [?x + enc_size ?be <=? U32_MAX] =>
-        pose proof (Hb be); destruct (N.leb_spec (x + enc_size be) U32_MAX); [discriminate|unfold U32_MAX, TABLE_FULL_SIZE in *; lia] end.
+        assert (Hbe : enc_size be <= U32_MAX - TABLE_FULL_SIZE);
+        [apply Hb; cbn [be_frag be_val be_shared be_ts]; auto|
+         destruct (N.leb_spec (x + enc_size be) U32_MAX); [discriminate|unfold U32_MAX, TABLE_FULL_SIZE in *; lia]] end.
+    - unfold MAX_KEY_LEN. lia.
+    - unfold len in *. rewrite skipn_length. lia.
+    - pose proof (common_prefix_le_r (bb_last_key b) (e_key e)). unfold len in *. lia.
+  Qed.
+
+  Lemma bb_add_total : size_bounded ->
+    forall b e, e_ts e <= U64_MAX -> put_ok (bb_last_key b) (bb_last_ts b) (bb_approx_size enc_size b) e ->
+    exists b1, bb_add enc_size b e = Ok b1.
+  Proof.
+    intros Hb b e Hts Hp. destruct (bb_add enc_size b e) as [b1|x] eqn:A; [eauto|exfalso].
+    destruct Hp as (P1 & P2 & P3 & P4).
+    destruct (bb_add_err b e x A) as [(_&L)|[(_&v&Ev&L)|[(_&L)|[(_&L)|(->&_)]]]].
+    - apply N.lt_nge in L. contradiction.
+    - specialize (P2 v Ev). apply N.lt_nge in L. contradiction.
+    - apply N.lt_nge in P3. contradiction.
+    - contradiction.
+    - exact (bb_add_no_panic Hb b e Hts A).
   Qed.
 End Build.
